@@ -325,6 +325,7 @@ func init() {
 	// ------------------------------------------------------------ encoding/json (snapshot model)
 	reg("encoding/json.MarshalIndent", func(m *Machine, fn *ssa.Function, a []Value) Value {
 		it := a[0].(Iface)
+		m.logDeepRead(it.V, map[interface{}]bool{})
 		return Tuple{&JSONBlob{Snap: deepCopy(it.V)}, nilErr()}
 	})
 	reg("encoding/json.Marshal", intrinsics["encoding/json.MarshalIndent"])
